@@ -232,6 +232,11 @@ theorem numCmp_embed (y : PyVal) (c : Int) :
   rw [num_embed]
   cases PyVal.num2 y <;> simp [cmpInt_half]
 
+theorem cmpNum_embed (y : PyVal) (c : Int) :
+    GVal.cmpNum (c * half) (embed y) = (PyVal.num2 y).map (cmpInt c) := by
+  rw [← numCmp_embed]
+  cases y <;> simp [embed, GVal.cmpNum]
+
 def CmpOK (a : PyVal) : Prop := ∀ b, objFree a = true → objFree b = true → GVal.pyCmp (embed a) (embed b) = PyVal.pyCmp a b
 
 theorem cmpL_embed (xs : List PyVal) (ih : ∀ x ∈ xs, CmpOK x) : ∀ ys, objFreeL xs = true → objFreeL ys = true →
@@ -254,13 +259,13 @@ theorem pyCmp_embed_aux : ∀ a : PyVal, CmpOK a := by
   | none => intro b _ hb; cases b <;> simp_all [embed, GVal.pyCmp, PyVal.pyCmp, objFree]
   | bool v =>
     intro b _ hb
-    simp only [embed, GVal.pyCmp, PyVal.pyCmp, bool_scale, numCmp_embed]
+    simp only [embed, GVal.pyCmp, PyVal.pyCmp, bool_scale, cmpNum_embed]
   | int n =>
     intro b _ hb
-    simp only [embed, GVal.pyCmp, PyVal.pyCmp, scale_mul, numCmp_embed]
+    simp only [embed, GVal.pyCmp, PyVal.pyCmp, scale_mul, cmpNum_embed]
   | flt t =>
     intro b _ hb
-    simp only [embed, GVal.pyCmp, PyVal.pyCmp, numCmp_embed]
+    simp only [embed, GVal.pyCmp, PyVal.pyCmp, cmpNum_embed]
   | str s => intro b _ hb; cases b <;> simp_all [embed, GVal.pyCmp, PyVal.pyCmp, objFree]
   | list xs ih =>
     intro b ha hb
